@@ -304,10 +304,11 @@ class ResourceMap:
         Internal implementation is recursive, hence extremely deep
         nested resource maps are not ideal.
         """
-        # Set valid identifiers as slots
+        # Set valid identifiers as slots. Private names (__name) would
+        # be mangled as slots, so they go in the dict
         slots_resources = tuple(filter(
-            lambda x: x.isidentifier(), chain(self.handles.keys(),
-                                              self.maps.keys())))
+            lambda x: x.isidentifier() and not x.startswith('__'),
+            chain(self.handles.keys(), self.maps.keys())))
 
         # Don't add a dict if all the resources can be encoded into
         # slots
